@@ -296,3 +296,27 @@ def t_sigstop():
 
 TARGETS['t_gilhold'] = t_gilhold
 TARGETS['t_sigstop'] = t_sigstop
+
+
+def p_mut_echo(*args, **kwargs):
+    """returns a snapshot of what it received, then mutates every mutable argument"""
+    import copy as _copy
+    truth('p-enter', x=None)
+    snap = [_copy.deepcopy(list(args)), _copy.deepcopy(dict(kwargs))]
+    for a in list(args) + list(kwargs.values()):
+        if isinstance(a, list):
+            a.append('dirty')
+        elif isinstance(a, dict):
+            a['dirty'] = True
+    truth('p-leave', x=None)
+    return snap
+
+
+def p_none(*args, **kwargs):
+    truth('p-enter', x=None)
+    truth('p-leave', x=None)
+    return None
+
+
+TARGETS['p_mut_echo'] = p_mut_echo
+TARGETS['p_none'] = p_none
